@@ -9,7 +9,7 @@ use crate::oracle::{self, CaseOutput, Finding, PipelineWant};
 use crate::prng::{Prng, derive};
 use crate::replayfile::ReplayFile;
 use crate::scenario::{Entry, Scenario, SchedSpec};
-use crate::simsched::{STRAT_PAUSE, STRAT_PCT, STRAT_STARVE, STRAT_STICKY, STRAT_UNIFORM, Trace};
+use crate::simsched::{STRAT_PAUSE, STRAT_PCT, STRAT_STARVE, STRAT_STICKY, STRAT_UNIFORM, STRAT_WINDOW, Trace};
 use crate::workload::{self, GenOptions, Profile};
 use serde_json::{Value, json};
 use std::path::Path;
@@ -51,19 +51,26 @@ pub enum SchedMode {
 pub fn sched_for(seed: u64, idx: u64, mode: SchedMode) -> SchedSpec {
     let case_seed = derive(seed, 0x5ced_0000 ^ idx);
     let mut rng = Prng::new(derive(case_seed, 1));
-    let strategy = [STRAT_UNIFORM, STRAT_STICKY, STRAT_PCT, STRAT_STARVE, STRAT_PAUSE][rng.pick_weighted(&[15, 20, 15, 10, 40])];
+    let strategy = [STRAT_UNIFORM, STRAT_STICKY, STRAT_PCT, STRAT_STARVE, STRAT_PAUSE, STRAT_WINDOW][rng.pick_weighted(&[10, 12, 8, 20, 20, 30])];
     let (p1, p2, p3) = match strategy {
         STRAT_STICKY => (*rng.pick(&[512u32, 800, 960, 1000]), 0, 0),
         STRAT_PCT => (rng.range(1, 6) as u32, *rng.pick(&[300u32, 1000, 3000]), 0),
         STRAT_STARVE => (
-            *rng.pick(&[2u32, 3, 4, 4, 1]), // finality, commit, worker, worker, caller
-            rng.below(1500) as u32,
+            // victim: a role (finality 2, commit 3, all workers 4, caller 1) or ONE task (16 + task id:
+            // 1 finality, 2 commit, 3.. workers)
+            *rng.pick(&[2u32, 3, 4, 1, 17, 18, 19, 19, 20, 20, 21, 22]),
+            rng.below(2500) as u32,
             *rng.pick(&[50u32, 300, 2000, 10_000]),
         ),
         STRAT_PAUSE => (
             *rng.pick(&[16u32, 32, 64, 128, 256]),
-            *rng.pick(&[30u32, 150, 600, 3000]),
+            *rng.pick(&[100u32, 500, 2000, 8000]),
             *rng.pick(&[1024u32, 512, 128, 32]),
+        ),
+        STRAT_WINDOW => (
+            *rng.pick(&[1u32, 2, 3, 4, 5]),
+            *rng.pick(&[100u32, 500, 2000, 8000]),
+            *rng.pick(&[1024u32, 1024, 512, 128]),
         ),
         _ => (0, 0, 0),
     };
@@ -99,7 +106,9 @@ fn gen_opts(profile: Profile, tier: Tier) -> GenOptions {
     }
 }
 
-pub const PIPELINE_CHECKS: &[&str] = &["C01", "C02", "C03", "C04", "C05", "C06", "C07", "C08", "C09", "C10", "C11", "C13"];
+pub const PIPELINE_CHECKS: &[&str] = &["C01", "C02", "C03", "C04", "C05", "C06", "C07", "C08", "C09", "C10", "C11", "C13", "C14"];
+/// checks whose replay files may also be pipeline files (their pipeline part)
+pub const MIXED_CHECKS: &[&str] = &["C15", "C16", "C17"];
 
 /// Dispatch a case to the oracle of its check.
 pub fn evaluate_case(check: &str, scenario: &Arc<Scenario>, sched: &SchedSpec, trace: Option<Trace>, want: &PipelineWant) -> CaseOutput {
@@ -121,7 +130,7 @@ pub fn plan_pipeline_case(check: &str, tier: Tier, seed: u64, idx: u64) -> Plan 
     let (profile, mode): (Profile, SchedMode) = match check {
         "C01" => ([Profile::Mixed, Profile::Mixed, Profile::Conflict, Profile::Lifecycle, Profile::Code][rng.below(5) as usize], SchedMode::Any),
         "C02" => ([Profile::Conflict, Profile::Conflict, Profile::Mixed, Profile::Beneficiary][rng.below(4) as usize], SchedMode::Any),
-        "C03" => (Profile::Invalid, SchedMode::Any),
+        "C03" => ([Profile::Invalid, Profile::Invalid, Profile::Invalid, Profile::Code][rng.below(4) as usize], SchedMode::Any),
         "C04" => ([Profile::Mixed, Profile::Conflict, Profile::Invalid, Profile::Precompile][rng.below(4) as usize], SchedMode::Any),
         "C05" => (
             [Profile::Mixed, Profile::Conflict, Profile::Invalid, Profile::Beneficiary, Profile::Lifecycle, Profile::Precompile][rng.below(6) as usize],
@@ -137,6 +146,9 @@ pub fn plan_pipeline_case(check: &str, tier: Tier, seed: u64, idx: u64) -> Plan 
         "C10" => ([Profile::Lifecycle, Profile::Mixed, Profile::Code, Profile::Conflict][rng.below(4) as usize], SchedMode::Any),
         "C11" => (Profile::Precompile, SchedMode::Any),
         "C13" => (Profile::Reserve, SchedMode::Any),
+        "C14" => ([Profile::Mixed, Profile::Conflict, Profile::Invalid, Profile::Beneficiary][rng.below(4) as usize], SchedMode::Any),
+        "C15" => ([Profile::Conflict, Profile::Conflict, Profile::Mixed][rng.below(3) as usize], SchedMode::Any),
+        "C16" | "C17" => ([Profile::Conflict, Profile::Mixed, Profile::Invalid, Profile::Beneficiary][rng.below(4) as usize], SchedMode::Strict),
         other => panic!("not a pipeline check: {other}"),
     };
     let mut scenario = workload::generate(gen_seed, &gen_opts(profile, tier));
@@ -145,6 +157,11 @@ pub fn plan_pipeline_case(check: &str, tier: Tier, seed: u64, idx: u64) -> Plan 
     match check {
         "C04" => {
             group = faultgen::add_error_faults(&mut scenario, &mut rng);
+        }
+        "C16" | "C17" => {
+            if rng.chance(1, 3) {
+                group = faultgen::add_error_faults(&mut scenario, &mut rng);
+            }
         }
         "C05" => {
             // a third of the strict runs carry a panic fault or an error fault
@@ -174,6 +191,28 @@ pub fn plan_pipeline_case(check: &str, tier: Tier, seed: u64, idx: u64) -> Plan 
                 }
             }
         }
+        "C14" => {
+            // 1-3 callers, 1-2 calls each (at least two calls in total); empty and non-empty blocks;
+            // parallel and sequential paths
+            if rng.chance(1, 8) {
+                scenario.txs.clear();
+            }
+            let entry = |rng: &mut Prng| match rng.below(4) {
+                0 | 1 => Entry::Execute,
+                2 => Entry::ParallelExecute(1 + rng.below(3) as usize),
+                _ => Entry::FallbackSequential,
+            };
+            let n_callers = rng.range(1, 3) as usize;
+            let mut callers: Vec<Vec<Entry>> = (0..n_callers).map(|_| (0..rng.range(1, 2)).map(|_| entry(&mut rng)).collect()).collect();
+            if callers.iter().map(|c| c.len()).sum::<usize>() < 2 {
+                callers[0].push(entry(&mut rng));
+            }
+            group = if n_callers == 1 { "successive-calls" } else { "concurrent-callers" };
+            scenario.callers = callers;
+            if rng.chance(1, 4) {
+                scenario.grevm.min_parallel_txs = scenario.txs.len() + 1;
+            }
+        }
         "C11" => {
             if rng.chance(1, 4) {
                 let mut sub = Prng::new(rng.next_u64());
@@ -200,7 +239,7 @@ pub fn plan_pipeline_case(check: &str, tier: Tier, seed: u64, idx: u64) -> Plan 
         }
         _ => {}
     }
-    if scenario.grevm.min_parallel_txs > scenario.txs.len() && check != "C06" && rng.chance(7, 8) {
+    if scenario.grevm.min_parallel_txs > scenario.txs.len() && check != "C06" && check != "C14" && rng.chance(7, 8) {
         // keep most runs on the parallel path
         scenario.grevm.min_parallel_txs = 0;
     }
@@ -231,7 +270,12 @@ pub fn filter_findings(check: &str, findings: Vec<Finding>) -> (Vec<Finding>, Ve
             "C10" => (f.property == "C10").then_some("C10"),
             "C11" => matches!(f.property, "C01" | "C02" | "C03" | "C04" | "C11").then_some("C11"),
             "C13" => matches!(f.property, "C01" | "C02" | "C03" | "C06" | "C13").then_some("C13"),
+            "C14" => matches!(f.property, "C14" | "C01" | "C02" | "C03").then_some("C14"),
             "C15" => (f.property == "C15").then_some("C15"),
+            // a stall of the strict-mode pipeline (progress possible only through a stall timer) is a lost
+            // re-offer (C16) or a lost notification (C17); both checks listen to it
+            "C16" => (f.property == "C05" && (f.class == "deadlock" || f.class == "livelock")).then_some("C16"),
+            "C17" => (f.property == "C05" && (f.class == "deadlock" || f.class == "livelock")).then_some("C17"),
             _ => None,
         };
         if let Some(p) = keep {
@@ -261,7 +305,10 @@ fn sample_of(plan: &Plan, out: &CaseOutput) -> Value {
 
 pub fn pipeline_case_record(check: &str, tier: Tier, seed: u64, idx: u64) -> CaseRecord {
     let plan = plan_pipeline_case(check, tier, seed, idx);
-    let out = evaluate_case(check, &plan.scenario, &plan.sched, None, &plan.want);
+    let mut out = evaluate_case(check, &plan.scenario, &plan.sched, None, &plan.want);
+    if check == "C14" {
+        out.findings.extend(oracle::fresh_scheduler_check(&plan.scenario));
+    }
     let sample = (idx < 3).then(|| sample_of(&plan, &out));
     let (findings, harness_errors) = filter_findings(check, out.findings);
     CaseRecord { idx, findings, harness_errors, stats: out.stats, sample, group: plan.group }
@@ -289,6 +336,7 @@ pub fn check_spec(id: &str) -> CheckSpec {
         "C09" => CheckSpec { id: "C09", runs_quick: 120_000, runs_thorough: 5_000_000, level: "exploration", rule: rule_pipeline },
         "C10" => CheckSpec { id: "C10", runs_quick: 120_000, runs_thorough: 5_000_000, level: "exploration", rule: rule_pipeline },
         "C11" => CheckSpec { id: "C11", runs_quick: 120_000, runs_thorough: 5_000_000, level: "exploration", rule: rule_pipeline },
+        "C14" => CheckSpec { id: "C14", runs_quick: 120_000, runs_thorough: 5_000_000, level: "exploration", rule: rule_pipeline },
         "C13" => CheckSpec { id: "C13", runs_quick: 120_000, runs_thorough: 5_000_000, level: "exploration", rule: rule_pipeline },
         other => panic!("unknown check {other}"),
     }
@@ -334,18 +382,16 @@ fn spawn_replay(path: &Path) -> Option<(i32, String)> {
     Some((output.status.code().unwrap_or(-1), String::from_utf8_lossy(&output.stdout).to_string()))
 }
 
-/// Run a pipeline check: batch, minimisation and replay verification of findings, known-findings
-/// matching, evidence. Returns the process exit code.
-pub fn run_pipeline_check(check: &str, tier: Tier, seed: u64) -> i32 {
-    let spec = check_spec(check);
-    let runs = runs_for(&spec, tier);
+/// Batch + minimisation + replay verification + known-findings matching for the pipeline cases of a
+/// check. Returns (aggregate, wall seconds, violations printed, known hits, exit code).
+pub fn run_pipeline_part(check: &str, tier: Tier, seed: u64, runs: u64) -> (batch::Aggregate, f64, u64, u64, i32) {
     let case = |idx: u64| pipeline_case_record(check, tier, seed, idx);
     let max_finding_cases = std::env::var("VERIF_MAX_FINDING_CASES").ok().and_then(|s| s.parse().ok()).unwrap_or(4usize);
     let (agg, wall) = batch::run_batch(runs, jobs(), max_finding_cases, None, &case);
 
     let known = known::load();
     let mut violations = 0u64;
-    let mut known_hits: Vec<&Known> = Vec::new();
+    let mut known_hits = 0u64;
     let mut exit = 0;
     if !agg.harness_errors.is_empty() {
         for (idx, e) in &agg.harness_errors {
@@ -374,12 +420,12 @@ pub fn run_pipeline_check(check: &str, tier: Tier, seed: u64) -> i32 {
             exit = 2;
             continue;
         }
-        if let Some(k) = known.iter().find(|k| k.matches(&file)) {
-            if k.status == "known" {
-                println!("KNOWN-FINDING: property={} {} (class={}, replay={})", k.property, k.what, file.class, path.display());
-                known_hits.push(k);
-                continue;
-            }
+        if let Some(k) = known.iter().find(|k| k.matches(&file)) &&
+            k.status == "known"
+        {
+            println!("KNOWN-FINDING: property={} {} (class={}, replay={})", k.property, k.what, file.class, path.display());
+            known_hits += 1;
+            continue;
         }
         violations += 1;
         println!("VIOLATION property={} replay={}", file.property, path.display());
@@ -388,7 +434,14 @@ pub fn run_pipeline_check(check: &str, tier: Tier, seed: u64) -> i32 {
             exit = 1;
         }
     }
+    (agg, wall, violations, known_hits, exit)
+}
 
+/// Run a pipeline check and write its evidence. Returns the process exit code.
+pub fn run_pipeline_check(check: &str, tier: Tier, seed: u64) -> i32 {
+    let spec = check_spec(check);
+    let runs = runs_for(&spec, tier);
+    let (agg, wall, violations, known_hits, exit) = run_pipeline_part(check, tier, seed, runs);
     let meta = EvidenceMeta {
         property: check,
         tier: tier.name(),
@@ -406,7 +459,7 @@ pub fn run_pipeline_check(check: &str, tier: Tier, seed: u64) -> i32 {
         stubbed_components: STUBBED.to_vec(),
         extra: json!({"jobs": jobs(), "n1_random_phase_decisions": N1, "n2_fair_phase_decisions": N2}),
     };
-    batch::write_evidence(&meta, &agg, wall, violations, known_hits.len() as u64);
+    batch::write_evidence(&meta, &agg, wall, violations, known_hits);
     println!(
         "check {check} {}: {} runs in {:.1}s ({:.0} runs/h), {} decisions, {} non-trivial, {} distinct behaviours, violations={} known={} exit={}",
         tier.name(),
@@ -417,7 +470,7 @@ pub fn run_pipeline_check(check: &str, tier: Tier, seed: u64) -> i32 {
         agg.nontrivial,
         agg.behaviours_nontrivial.len(),
         violations,
-        known_hits.len(),
+        known_hits,
         exit
     );
     exit
@@ -427,7 +480,7 @@ pub fn run_pipeline_check(check: &str, tier: Tier, seed: u64) -> i32 {
 pub fn replay(path: &Path) -> i32 {
     crate::hook::ensure_installed();
     let file = ReplayFile::read(path);
-    if !PIPELINE_CHECKS.contains(&file.check.as_str()) {
+    if !PIPELINE_CHECKS.contains(&file.check.as_str()) && !file.extra["component"].is_null() {
         return crate::components::replay(&file, path);
     }
     let (mine, harness, out) = evaluate_replay(&file, true);
